@@ -78,6 +78,91 @@ type loopInfo struct {
 	stable   map[string]bool // field components assumed unwritten by the loop (validated)
 	fullComps []compRef      // components the loop havocs entirely (get an automatic frame invariant)
 	rangePhis []*ssa.Phi     // range-index phis (automatic invariant phi >= -1)
+	// the map-clearing idiom `for k := range m { delete(m, k) }`: executed as one
+	// step (the map becomes empty), no invariant needed
+	clearMap  ssa.Value
+	clearExit *ssa.BasicBlock
+}
+
+// detectClearIdiom recognises `for k := range m { delete(m, k) }`.
+func detectClearIdiom(li *loopInfo) {
+	h := li.header
+	if len(li.blocks) != 2 || len(h.Instrs) != 3 {
+		return
+	}
+	nx, ok := h.Instrs[0].(*ssa.Next)
+	if !ok || nx.IsString {
+		return
+	}
+	rg, ok := nx.Iter.(*ssa.Range)
+	if !ok {
+		return
+	}
+	mt, ok := rg.X.Type().Underlying().(*types.Map)
+	if !ok {
+		return
+	}
+	if b, isB := mt.Key().Underlying().(*types.Basic); isB && b.Info()&(types.IsFloat|types.IsComplex) != 0 {
+		return // NaN keys cannot be deleted
+	}
+	if _, isI := mt.Key().Underlying().(*types.Interface); isI {
+		return
+	}
+	okx, ok := h.Instrs[1].(*ssa.Extract)
+	if !ok || okx.Tuple != nx || okx.Index != 0 {
+		return
+	}
+	br, ok := h.Instrs[2].(*ssa.If)
+	if !ok || br.Cond != okx {
+		return
+	}
+	body, exit := h.Succs[0], h.Succs[1]
+	if !li.blocks[body] || li.blocks[exit] {
+		return
+	}
+	var key *ssa.Extract
+	var del *ssa.Call
+	for _, ins := range body.Instrs {
+		switch x := ins.(type) {
+		case *ssa.Extract:
+			if x.Tuple != nx || x.Index != 1 || key != nil {
+				return
+			}
+			key = x
+		case *ssa.Call:
+			bi, isB := x.Call.Value.(*ssa.Builtin)
+			if !isB || bi.Name() != "delete" || del != nil {
+				return
+			}
+			del = x
+		case *ssa.UnOp, *ssa.FieldAddr, *ssa.DebugRef, *ssa.Jump:
+		default:
+			return
+		}
+	}
+	if key == nil || del == nil || del.Call.Args[1] != key || !sameMapExpr(del.Call.Args[0], rg.X) {
+		return
+	}
+	li.clearMap = rg.X
+	li.clearExit = exit
+}
+
+// sameMapExpr: the same SSA value, or loads of the same field of the same base.
+func sameMapExpr(a, b ssa.Value) bool {
+	if a == b {
+		return true
+	}
+	la, ok1 := a.(*ssa.UnOp)
+	lb, ok2 := b.(*ssa.UnOp)
+	if !ok1 || !ok2 || la.Op != token.MUL || lb.Op != token.MUL {
+		return false
+	}
+	fa, ok1 := la.X.(*ssa.FieldAddr)
+	fb, ok2 := lb.X.(*ssa.FieldAddr)
+	if ok1 && ok2 {
+		return fa.Field == fb.Field && (fa.X == fb.X || sameMapExpr(fa.X, fb.X))
+	}
+	return la.X == lb.X
 }
 
 type nameBinding struct {
@@ -166,6 +251,9 @@ func (f *Frame) analyseCFG() {
 		if f.fc != nil {
 			li.spec = f.fc.Loops[i]
 		}
+		if li.spec == nil {
+			detectClearIdiom(li)
+		}
 		for b := range li.blocks {
 			f.inLoopOf[b] = append(f.inLoopOf[b], li)
 		}
@@ -231,6 +319,12 @@ func (f *Frame) run(entry State) {
 			continue
 		}
 		st := f.mergeEdges(b, edges)
+		if li := f.loops[b]; li != nil && li.clearMap != nil {
+			// the map-clearing idiom, as one step
+			st = f.clearMapStep(li.clearMap, st)
+			f.edgeTo(b, li.clearExit, st, in)
+			continue
+		}
 		if li := f.loops[b]; li != nil {
 			st = f.cutLoop(li, st)
 		}
@@ -766,4 +860,24 @@ func rangeBound(phi *ssa.Phi) ssa.Value {
 		}
 	}
 	return nil
+}
+
+// clearMapStep empties the map (no-op on a nil map).
+func (f *Frame) clearMapStep(mv ssa.Value, st State) State {
+	vc := f.vc
+	vc.Trusted["for k := range m { delete(m, k) } empties m (Go spec: entries removed during iteration are not produced; every other entry is visited)"] = true
+	m := f.val(mv).T
+	mt := mv.Type().Underlying().(*types.Map)
+	ks, vs := f.w.Sorts.SortOf(mt.Key()), f.w.Sorts.SortOf(mt.Elem())
+	if p, ok := mv.(*ssa.UnOp); ok {
+		_ = p
+	}
+	mdn := mapDomComp(ks, vs)
+	md := st.Heap.Comp(mdn, ArraySort(SInt, ArraySort(ks, SBool)))
+	ms := st.Heap.Comp(mapSizeComp, ArraySort(SInt, SInt))
+	nmd := Ite(Eq(m, IntLit(0)), md, Store(md, m, ConstArray(ArraySort(ks, SBool), False)))
+	nms := Ite(Eq(m, IntLit(0)), ms, Store(ms, m, IntLit(0)))
+	st.Heap = st.Heap.Set(mdn, vc.Define("h."+mdn, nmd))
+	st.Heap = st.Heap.Set(mapSizeComp, vc.Define("h.MS", nms))
+	return st
 }
